@@ -60,6 +60,7 @@ var c01Deterministic = []string{
 	"^sta-0*[1]", "^sta-1>2?'x':'y'", "xs=[1]; xs[0]=xs; ys=[1]; ys[0]=ys; xs==ys", "i=0; while i<2 { func g() { if 1 { break } }; g(); i=i+1 }; i",
 	"s='0123456789012345678901234567890123456789012345678901234567890123'; s[64]", "dd = {}; dd.__proto__ = dd; dd.x", "aa = {}; bb = {}; bb.__proto__ = bb; aa.__proto__ = bb; aa.x",
 	"x=[1]; i=0; while i<40 { x=[x,x]; i=i+1 }; y=[1]; i=0; while i<40 { y=[y,y]; i=i+1 }; x==y",
+	"a=[1,2]; i=0; while i < 60 { a[0:0] = a; i = i + 1 }; 1",
 }
 
 func c01N(tier string) int {
